@@ -3,6 +3,7 @@
 mod bk;
 mod chunker;
 mod common;
+mod ingest;
 mod members;
 mod sim;
 mod syncneeds;
@@ -22,6 +23,11 @@ fn main() {
                 // sim-walk <seed> <nodes> <keys> <steps> <restart:0|1> <out.ndjson>
                 let p = |i: usize| args[i].parse::<u64>().unwrap();
                 sim::run_walk(p(2), p(3) as usize, p(4) as i64, p(5) as usize, p(6) == 1, &args[7]).await
+            }
+            "ingest-walk" => {
+                // ingest-walk <seed> <qlen> <chunk> <nvers> <steps> <out>
+                let p = |i: usize| args[i].parse::<u64>().unwrap();
+                ingest::run_walk(p(2), p(3) as usize, p(4) as usize, p(5), p(6) as usize, &args[7]).await
             }
             "sim-replay" => sim::run_replay(&args[2], &args[3]).await,
             "replay-members" => members::run(&args[2]),
